@@ -634,6 +634,8 @@ class Evaluator:
                 return self.index_of(inner, i, ty)
         if w:
             return ("sel", base, i, w)
+        if isinstance(i, tuple) and T.is_k(i):
+            return ("elem", base, i[2], ty)
         return ("obj", "elem(%s)" % _short(base), ty)
 
     def write_place(self, p, v, st):
